@@ -148,6 +148,7 @@ def main():
                     work.append(c1)
     violations, knowns_hit, others, vac_missing, unstable = [], [], [], [], []
     stub_blocked = []
+    units_undecided = []
     obligations = discharged = 0
     fn_rows, trusted_all, rule_log, samples = [], [], [], []
     smt_ms = 0
@@ -155,12 +156,16 @@ def main():
     for un, (u, runs, wall) in results.items():
         r = runs[0]
         checker_cmds.append(r['cmd'])
+        # a unit that cannot be decided (time-out, front-end error) does not hide a definite failure found in ANOTHER unit of the cone:
+        # it is remembered, the remaining units are still evaluated, and the property is undecided only if nothing definitely fails
         if r['timed_out']:
-            undecided(f'unit {un}: Verus timed out')
+            units_undecided.append(f'unit {un}: Verus timed out')
+            continue
         if r['frontend_errors']:
             for d in r['frontend_errors'][:5]:
                 log(d['rendered'] or d['message'])
-            undecided(f'unit {un}: Verus front-end error (unsupported construct / type error): extraction or model out of date')
+            units_undecided.append(f'unit {un}: Verus front-end error (unsupported construct / type error): extraction or model out of date')
+            continue
         real_undecided = [d for d in r['undecided'] if d['owner_kind'] != 'vacuity']
         if real_undecided:
             # a resource limit is not a verdict: re-run each such function alone (fresh solver, 10x the limit);
@@ -262,6 +267,8 @@ def main():
                 if other != base or rr['undecided'] or rr['frontend_errors']:
                     unstable.append({'unit': un, 'cmd': rr['cmd'], 'differs': sorted(map(str, other ^ base)),
                                      'undecided': [d['owner'] for d in rr['undecided']]})
+    if units_undecided and not violations:
+        undecided('; '.join(units_undecided))
     if vac_missing:
         undecided(f'vacuous contract(s): `ensures false` twin verified for {vac_missing}')
 
